@@ -79,6 +79,16 @@ def constant_fold_expr(expr: Expression, cur_mod_id: str) -> ConstantValue | Non
 def constant_fold_binary_op(
     op: str, left: ConstantValue, right: ConstantValue
 ) -> ConstantValue | None:
+    try:
+        return _constant_fold_binary_op(op, left, right)
+    except (OverflowError, MemoryError):
+        # The operation fails at run time as well; there is no value to fold to.
+        return None
+
+
+def _constant_fold_binary_op(
+    op: str, left: ConstantValue, right: ConstantValue
+) -> ConstantValue | None:
     if isinstance(left, int) and isinstance(right, int):
         return constant_fold_binary_int_op(op, left, right)
 
@@ -183,5 +193,5 @@ def constant_fold_unary_op(op: str, value: ConstantValue) -> int | float | None:
     elif op == "~" and isinstance(value, int):
         return ~value
     elif op == "+" and isinstance(value, (int, float)):
-        return value
+        return +value
     return None
